@@ -201,6 +201,8 @@ def check_prior(case, stats):
       wv[0] = -0.1 * wv[-1]
       arr = (V * wv).dot(V.T)
       arr = (arr + arr.T) / 2
+  if arr is not None and case['aseed'] % 2 == 1:
+    arr = np.asfortranarray(arr)           # same matrix, column-major memory layout
   X = data.X.copy()
   if opt == 'covariance-singular':
     X[:, -1] = X[:, 0] * 2.0       # linearly dependent feature -> singular covariance
